@@ -201,8 +201,14 @@ def finish(pack, results, wall, tier, seed, write_evidence=True):
     cross = [r for r in results if r.ob.kind == "cross"]
     real = [r for r in results if r.ob.kind == "proof"]
     bounded = [r for r in results if r.ob.kind == "bounded"]
+    canary_undecided = False
     for r in canaries:
-        if r.status != "refuted":
+        if r.status == "undecided":
+            # the canary's own code path is outside the interpreted subset on this tree (e.g. after a refactoring): no engine verdict is
+            # contradicted, but the vacuity guard is gone; without a confirmed violation this run has no verdict (exit 3)
+            lines.append(f"UNDECIDED canary {r.name}: {r.detail[:200]}")
+            canary_undecided = True
+        elif r.status != "refuted":
             lines.append(f"CHECKER-ERROR canary {r.name} was not refuted ({r.status}) {r.detail[:200]}")
             exit_code = 3
     engine_doubt = False
@@ -252,8 +258,10 @@ def finish(pack, results, wall, tier, seed, write_evidence=True):
                 exit_code = 1
         elif r.status == "undecided":
             lines.append(f"UNDECIDED obligation={r.name} reason={r.detail[:200]}")
-    if engine_doubt and exit_code == 0:
-        exit_code = 3  # no confirmed violation and an engine that disagrees with CPython: no verdict
+    if (engine_doubt or canary_undecided) and not any(r.confirmed for r in violations):
+        if exit_code != 3:
+            lines.append("CHECKER-ERROR no verdict: the vacuity canary is undecided / the engine disagrees with CPython on this tree and no violation was confirmed on the real code")
+        exit_code = 3  # no confirmed violation and an engine whose verdicts cannot be trusted on this tree: no verdict
     counted = [r for r in real if not is_known(r.name) or r.status == "proved"]
     n_ob = len(counted)
     n_dis = sum(1 for r in counted if r.status == "proved")
